@@ -124,6 +124,11 @@ func (c *ctx) cliCaseSQL(a, b Schema, desc string) {
 
 func lastLine(s string) string {
 	l := strings.Split(strings.TrimSpace(s), "\n")
+	for _, x := range l { // the CLI's own error line, when there is one
+		if strings.HasPrefix(x, "Error:") {
+			return trunc(x, 300)
+		}
+	}
 	return trunc(l[len(l)-1], 300)
 }
 
@@ -156,6 +161,16 @@ func runCLI(c *ctx) {
 	for i, fc := range fkGrid(c.thorough) {
 		if i%step == 0 && !strings.HasSuffix(fc.desc, ":rename") {
 			c.cliCaseSQL(fc.a, fc.b, fc.desc)
+		}
+	}
+	// populated databases whose rows decide whether the apply can be committed (cliorphan.go)
+	rounds := 3 // one per key style of the child table
+	if c.thorough {
+		rounds = 30
+	}
+	for i := 0; i < rounds; i++ {
+		for _, sc := range c.orphanScenarios(i % 3) {
+			c.cliOrphanCase(sc)
 		}
 	}
 }
